@@ -176,6 +176,16 @@ struct State {
     free: bool,
 }
 
+/// When the foreign module goes away (after the run was judged) it takes its static objects with
+/// it: nothing in the library under test was ever to release them.
+impl Drop for ForeignBlock {
+    fn drop(&mut self) {
+        if self.no_drop {
+            unsafe { std::mem::ManuallyDrop::drop(&mut self.payload) };
+        }
+    }
+}
+
 fn mk_payload(st: &State, id: u32) -> P {
     P { alloc: id, val: 0xABCD_0000 + id as u64, reg: st.reg.clone() }
 }
